@@ -224,6 +224,27 @@ def run_path(path, value, lang):
         scan("stored_ctx", cx)
     ser = c.serialize()
     scan("persisted_output", ser.get("output") or {})
+    # tail: the output has been rendered (terminal contexts merged); the join is rerun and completes again. What
+    # it is offered and what the workflow then renders must not depend on whether the conductor was persisted.
+    tail = []
+    if path.get("tail"):
+        from .real import orq_requests
+        P(9)
+        try:
+            c.request_workflow_rerun([orq_requests.TaskRerunRequest.new("t4", 0)])
+            P(10)
+            for t in c.get_next_tasks():
+                tail.append(["rerun_offer", t["id"], tag({k: v for k, v in t["ctx"].items() if not k.startswith("__")}),
+                             tag([a.get("input") for a in t["actions"]])])
+                c.update_task_state(t["id"], t["route"], events.ActionExecutionEvent(statuses.RUNNING))
+                c.update_task_state(t["id"], t["route"], events.ActionExecutionEvent(statuses.SUCCEEDED, result="r4b"))
+            P(11)
+            c.render_workflow_output()
+            tail.append(["status", c.get_workflow_status()])
+            tail.append(["output", tag(c.get_workflow_output() or {})])
+            tail.append(["contexts", tag(list(c.workflow_state.contexts))])
+        except Exception as e:
+            tail.append(["exception", type(e).__name__ + ": " + str(e)[:80]])
     # purity of a single evaluation: the context argument is unchanged
     ectx = {"x": copy.deepcopy(value), "n": {"a": [1, {"b": 2}]}, "__current_task": {"id": "t", "route": 0, "result": copy.deepcopy(value)}}
     before = tag(ectx)
@@ -251,7 +272,7 @@ def run_path(path, value, lang):
         except Exception:
             priv.append([name, -1, "rejected"])
     ctx0()
-    return {"expect": tag(expect), "stages": stages, "hidden": hidden, "pure": pure, "ctx0": ctx0s, "snaps": snaps,
+    return {"expect": tag(expect), "stages": stages, "hidden": hidden, "pure": pure, "ctx0": ctx0s, "snaps": snaps, "tail": tail,
             "status": c.get_workflow_status(), "priv": priv, "npersist": npers[0],
             "errors": [e.get("message", "")[:80] for e in c.errors]}
 
@@ -266,6 +287,34 @@ def _job(job):
                "ctx0": [], "snaps": [], "status": "exception", "priv": [], "npersist": 0, "errors": [traceback.format_exc()[-300:]]}
     return {"kind": "datapath", "def": {"name": "c16"}, "case": dict(path, lang=lang, vid=vid),
             "members": [{"role": "run", "fin": fin, "sched": []}], "replay": {"path": path, "value": repr(value), "lang": lang}}
+
+
+def _pair_job(job):
+    path, value, lang, vid = job
+    try:
+        live = run_path(dict(path, persist=[], tail=True), value, lang)
+        rest = run_path(dict(path, persist=list(range(12)), tail=True), value, lang)
+        f = lambda r: {"trail": [r["stages"], r["pure"], r["snaps"], r["tail"]], "final": [r["status"], r["errors"], r["tail"][-2:]],
+                       "reser": True, "npersist": r["npersist"], "wf": r["status"]}
+        return {"kind": "persist", "def": {"name": "c16host"}, "case": dict(path, lang=lang, vid=vid),
+                "members": [{"role": "live", "fin": f(live), "sched": []}, {"role": "restored", "fin": f(rest), "sched": [], "points": "all"}],
+                "replay": {"path": path, "value": repr(value), "lang": lang}}
+    except Exception as e:
+        import traceback
+        return {"error": "%s: %s\n%s" % (type(e).__name__, e, traceback.format_exc()[-400:])}
+
+
+def persist_pairs(paths, vals, seed=0):
+    """C05 on the data-path host (nested values, publishes over publishes, output rendered, a rerun after it): the
+    same path run on a conductor that is never persisted and on one that is restored after every call"""
+    rng = random.Random(seed)
+    jobs = []
+    for vid, v in enumerate(vals):
+        p = rng.choice(paths)
+        lang = "yaql" if p["form"] < 4 else "jinja"
+        jobs.append((dict(p, form=p["form"] if lang == "yaql" else p["form"] - 4), v, lang, vid))
+    outs = pmap(_pair_job, jobs)
+    return [o for o in outs if "error" not in o], [o for o in outs if "error" in o]
 
 
 def datapath_groups(paths, vals, seed=0, per_value=3):
